@@ -160,7 +160,12 @@ func addTime(m map[string]Intrinsic) {
 			}
 			return okT(mkBV(64, uint64(t.UnixNano())))
 		}
-		// symbolic text: the date grammar is not encoded; outcome is nondeterministic
+		// symbolic text: the date grammar is not encoded; outcome is nondeterministic - except
+		// that a text shorter than every date form cannot parse (http.TimeFormat has exactly 29
+		// bytes, the other two forms http.ParseTime accepts have at least 24)
+		if (layout == http.TimeFormat && s.Len() != len(http.TimeFormat)) || s.Len() < 19 || (layout == "" && s.Len() < 24) {
+			return errT()
+		}
 		if vm.chooseLogged(2) == 0 {
 			return errT()
 		}
